@@ -119,6 +119,10 @@ structure Codecs where
   dec : String → Bytes → Outcome (Tup × Nat)
   /-- effect of `SetBufferFormat k` on a nested value -/
   setFmt : Nat → Tup → Tup
+  /-- what a *failing* `Unmarshal` of the nested type has already assigned in the receiver when it gives up (Go decoders
+      assign field by field: `SMB_STRING.Unmarshal` sets `BufferFormat`, and for the counted formats `Length`, before
+      it finds the buffer too short).  Visible only where the caller drops the error (`readSub … checked = false`). -/
+  decFail : String → Bytes → Tup → Tup := fun _ _ v => v
 
 /-! ## integers -/
 
@@ -380,7 +384,12 @@ def runUStmt (C : Codecs) (s : UState) : UStmt → Step UState
     | .ok w =>
       match C.dec typ w with
       | .ok (v, k) => .next { s with env := s.env.set f (.t v), bytesRead := if stores then k else s.bytesRead }
-      | .err => if checked then .err else .next s     -- unchecked: the error is dropped, fields keep what was set
+      | .err =>
+        if checked then .err else
+        -- unchecked: the error is dropped; the receiver keeps what the failing decoder had assigned before it gave up
+        match s.env.get f with
+        | some (.t old) => .next { s with env := s.env.set f (.t (C.decFail typ w old)) }
+        | _ => .next s
       | .panic => .panic
     | .err => .err
     | .panic => .panic
